@@ -80,7 +80,7 @@ _fname = st.builds(
     st.text(alphabet=_AL + "._+-", max_size=10),
 ).filter(lambda s: s not in EXCLUDED and not s.endswith(".ebuild") and s != "files")
 _data = st.one_of(
-    st.just(b""), st.binary(max_size=64), st.binary(min_size=100, max_size=1500),
+    st.just(b""), st.binary(max_size=64), st.binary(min_size=100, max_size=700),
     st.sampled_from([b"EAPI=8\n", b"<pkgmetadata/>\n", b"patch\n", b"\n", b"a b\tc\n"]),
 ).map(lambda b: b.hex())
 _ver = st.sampled_from(["0", "1", "1.0", "2.4.1", "10", "1.0-r1", "3_p1", "9999", "1.2_rc3"])
@@ -512,10 +512,18 @@ def _crash_part(ctx, env, case, pristine, dist2, old, exp2, writes2):
 
 # ---------------------------------------------------------------- runner glue
 
+def _interleave(a, b):
+    """alternate the two task kinds so that both make progress whatever the job count / budget"""
+    out = []
+    for i in range(max(len(a), len(b))):
+        out += a[i:i + 1] + b[i:i + 1]
+    return out
+
+
 def plan(tier, seed):
     if tier == "quick":
-        return [{"task": "crash", "examples": 40} for _ in range(8)] + [{"task": "gen", "examples": 250} for _ in range(8)]
-    return [{"task": "crash", "examples": 1500} for _ in range(16)] + [{"task": "gen", "examples": 6000} for _ in range(16)]
+        return _interleave([{"task": "crash", "examples": 30} for _ in range(8)], [{"task": "gen", "examples": 160} for _ in range(8)])
+    return _interleave([{"task": "crash", "examples": 1500} for _ in range(16)], [{"task": "gen", "examples": 6000} for _ in range(16)])
 
 
 def run_task(ctx, task, **kw):
